@@ -39,7 +39,7 @@ type realOp struct {
 	Op        string `json:"op"` // watch | free | get | list
 	O         int    `json:"o"`
 	G         int    `json:"g"`
-	List      string `json:"list"`       // for watch: how LIST of kind g behaves during the call: ok | hang | fail
+	List      string `json:"list"`       // for watch: how the API behaves for kind g during the call: ok | hang | fail (LIST) | nomatch (the RESTMapper does not know the kind yet)
 	Sns       *int   `json:"sns"`        // for watch: namespace of the sample object (index into realNamespaces; default 1)
 	TimeoutMs int    `json:"timeout_ms"` // deadline of the call's context (0: 150 ms if LIST hangs/fails, else 5 s)
 }
@@ -342,6 +342,31 @@ func (d *fakeDyn) send(k int, seq int) {
 	}
 }
 
+// flakyMapper: a RESTMapper that can be told not to know a kind (yet), as before its CRD is installed.
+type flakyMapper struct {
+	meta.RESTMapper
+	mu      sync.Mutex
+	unknown map[schema.GroupVersionKind]bool
+}
+
+func (m *flakyMapper) RESTMapping(gk schema.GroupKind, versions ...string) (*meta.RESTMapping, error) {
+	m.mu.Lock()
+	for gvk, u := range m.unknown {
+		if u && gvk.GroupKind() == gk && (len(versions) == 0 || versions[0] == gvk.Version) {
+			m.mu.Unlock()
+			return nil, &meta.NoKindMatchError{GroupKind: gk, SearchedVersions: versions}
+		}
+	}
+	m.mu.Unlock()
+	return m.RESTMapper.RESTMapping(gk, versions...)
+}
+
+func (m *flakyMapper) setUnknown(gvk schema.GroupVersionKind, u bool) {
+	m.mu.Lock()
+	defer m.mu.Unlock()
+	m.unknown[gvk] = u
+}
+
 // ---- handlers that count what they receive
 
 type countingHandler struct {
@@ -374,7 +399,7 @@ func classifyRealErr(err error) string {
 		return "none"
 	case errors.As(err, &notStarted):
 		return "notstarted"
-	case apierrors.IsTimeout(err), errors.Is(err, context.DeadlineExceeded):
+	case apierrors.IsTimeout(err), errors.Is(err, context.DeadlineExceeded), meta.IsNoMatchError(err):
 		return "get"
 	}
 	return "other:" + err.Error()
@@ -417,7 +442,8 @@ func runReal(sc realScenario) (any, error) {
 		}
 		d.kindOf[m.Resource] = i
 	}
-	c := dynamiccache.VerifNewCacheOnRealInformerMap(cacheScheme, mapper, d)
+	fm := &flakyMapper{RESTMapper: mapper, unknown: map[schema.GroupVersionKind]bool{}}
+	c := dynamiccache.VerifNewCacheOnRealInformerMap(cacheScheme, fm, d)
 	seen := &sync.Map{}
 	bg := context.Background()
 	for i := 0; i < sc.Handlers; i++ {
@@ -450,14 +476,19 @@ func runReal(sc realScenario) (any, error) {
 			if mode == "" {
 				mode = "ok"
 			}
-			d.setBehave(op.G, mode)
+			if mode == "nomatch" {
+				fm.setUnknown(kindGVK(op.G), true)
+			} else {
+				d.setBehave(op.G, mode)
+			}
 			sns := 1
 			if op.Sns != nil {
 				sns = *op.Sns
 			}
 			err = c.Watch(ctx, realOwner(op.O), kindObjectNS(op.G, realNamespaces[sns]))
-			// the API server recovers once the call is over
+			// the API server recovers (the CRD gets installed) once the call is over
 			d.setBehave(op.G, "ok")
+			fm.setUnknown(kindGVK(op.G), false)
 			if mode == "fail" {
 				// a reflector whose LIST failed retries after its backoff (0.8 s, jittered up to 2x)
 				quiet = 1800 * time.Millisecond
